@@ -796,7 +796,18 @@ def run(ctx):
         base_cfg = {"nthreads": 1, "progress": False, "page": False}
         ref = run_pipeline(desc, base_cfg, reference=True)
         if any(s != "ok" for s in ref["stages"].values()):
-            raise common.Infra("reference run failed for %s: %s" % (describe(desc), ref["stages"]))
+            # is it the input (every configuration fails alike: infrastructure) or the schedule (some configuration
+            # completes what the in-process run could not: the outcome depends on how the work is dispatched)?
+            others = [(cfg, run_pipeline(desc, cfg)) for cfg in configs(ctx, kindm, desc["name"])[:2]]
+            better = [(cfg, o) for cfg, o in others if any(o["stages"].get(st) == "ok" and ref["stages"][st] != "ok" for st in ref["stages"])]
+            if not better:
+                raise common.Infra("reference run failed for %s: %s" % (describe(desc), ref["stages"]))
+            cfg, o = better[0]
+            viol.append(("%s: the in-process run ends with %s, but with %s the stages end with %s: whether a stage completes depends on "
+                         "the dispatch" % (describe(desc), ref["stages"], cfg_name(cfg), o["stages"]),
+                         {"desc": desc, "cfg": cfg, "reference_fails": True}, "c08:outcome-differs"))
+            ctx.case((describe(desc), "reference-fails"), nontrivial=True, tag="%s/reference fails, pooled run completes" % desc["name"])
+            continue
         if not ref["snaps"]["thermal"]:
             raise common.Infra("reference run produced no arrays")
         # paging by itself is value-neutral (no pool involved): the paged reference equals the reference
@@ -1042,7 +1053,10 @@ def replay(obj):
     raised = [s for s in out["stages"].values() if s.startswith("raised")]
     for s in raised:
         print("  FAILS:", s)
-    bad = bool(diffs or raised)
+    outcome = [st for st in ref["stages"] if (ref["stages"][st] == "ok") != (out["stages"].get(st) == "ok")]
+    for st in outcome:
+        print("  FAILS: stage %s ends with %r in the in-process run and with %r under %s" % (st, ref["stages"][st], out["stages"].get(st), cfg_name(cfg)))
+    bad = bool(diffs or raised or outcome)
     print("property holds on this input" if not bad else "property violated on this input")
     return 1 if bad else 0
 
